@@ -4,5 +4,6 @@ export GOFLAGS=-mod=mod GOPROXY=off GOSUMDB=off GOTOOLCHAIN=local
 cd "$(dirname "$0")/harness" || exit 1
 cmp -s /repo/go.sum go.sum || cp /repo/go.sum go.sum
 go build -o /dev/null ./cmd/chk || exit 1
+go build -race -o /dev/null ./cmd/c14race || exit 1
 (cd /repo && go build -o /dev/null ./cmd/pql) || exit 1
 echo setup ok
